@@ -75,7 +75,9 @@ def merge(results):
         tot.excluded.update(r.excluded)
         tot.inconclusive += r.inconclusive
         for k, v in r.extra.items():
-            if isinstance(v, (int, float)) and isinstance(tot.extra.get(k, 0), (int, float)):
+            if k.startswith("max_") and isinstance(v, (int, float)):
+                tot.extra[k] = max(tot.extra.get(k, v), v)
+            elif isinstance(v, (int, float)) and isinstance(tot.extra.get(k, 0), (int, float)):
                 tot.extra[k] = tot.extra.get(k, 0) + v
             elif isinstance(v, list):
                 tot.extra.setdefault(k, [])
@@ -289,3 +291,59 @@ def scm_str(s):
             out.append(ch)
     out.append('"')
     return "".join(out)
+
+
+# ---------------------------------------------------------------------------
+# Hypothesis glue
+
+class Found(Exception):
+    """raised inside a Hypothesis test when the oracle fails"""
+
+    def __init__(self, signature, detail):
+        Exception.__init__(self, signature)
+        self.signature = signature
+        self.detail = detail
+
+
+def hypothesis_search(strategy, test, seed, max_examples, res, to_case=lambda x: x, max_findings=3):
+    """Runs `test(example)` (which raises Found on an oracle failure) over examples drawn from
+    `strategy`; every failure is shrunk by Hypothesis and recorded in res.violations with the
+    minimal example.  After a finding the search continues with a derived seed and with that
+    signature excluded (so a shallow defect does not hide what lies behind it)."""
+    import hypothesis
+    from hypothesis import HealthCheck, Phase, given, settings
+
+    excluded = set()
+    remaining = max_examples
+    rounds = 0
+    while remaining > 0 and rounds <= max_findings:
+        last = {}
+        count = [0]
+
+        def wrapped(ex):
+            count[0] += 1
+            try:
+                test(ex)
+            except Found as f:
+                if f.signature in excluded:
+                    return
+                last["ex"] = ex
+                last["found"] = f
+                raise
+
+        runner = settings(max_examples=remaining, database=None, deadline=None, derandomize=False,
+                          phases=(Phase.generate, Phase.shrink), report_multiple_bugs=False,
+                          suppress_health_check=list(HealthCheck), print_blob=False)(
+            hypothesis.seed(subseed(seed, "hyp", rounds) % (2 ** 63))(given(strategy)(wrapped)))
+        try:
+            runner()
+            remaining = 0
+        except Found:
+            f = last["found"]
+            res.violation(to_case(last["ex"]), f.signature, f.detail)
+            excluded.add(f.signature)
+            remaining -= count[0]
+        except hypothesis.errors.Unsatisfiable:
+            remaining = 0
+        rounds += 1
+    return excluded
